@@ -26,6 +26,8 @@ def run(ctx, rep):
     rep.rule("R19-APPLY", "V1/V2: (datum?) -> redeemer -> context; V3: context only", floor=2)
     rep.rule("R19-THREAD", "the caller's budget reaches every evaluation in do_eval_redeemer, and every eval_redeemer call of the loop gets &remaining_budget", floor=6)
     rep.rule("R19-BUDGET", "after each redeemer the remaining budget is decremented in both dimensions (cpu<->steps, mem<->mem) by the units of the redeemer the evaluation returned, which is also what is reported", floor=4)
+    rep.rule("R19-COST", "every evaluation entry point reports cost against the budget its machine was created with", floor=6)
+    rep.guarded("R19-COST", lambda: r_cost(sh, rep))
     rep.rule("R19-FAIL", "a machine error, and a version-aware failed verdict (V3: non-unit result), are returned as Err before a result is built", floor=2)
     rep.rule("R19-ORDER", "collections the ledger orders are sorted when the script context is built (spec table)", floor=8)
     rep.rule("R19-POINTER", "every sort of transaction inputs that yields positions keys on (transaction_id, index); reward accounts and voters use the shared comparators", floor=3)
@@ -221,12 +223,44 @@ ORDERED = {
 
 def r_order(sh, rep):
     fj = sh.file(SC)
+    sv = find_fn(fj, "sort_tx_out_value")
+    mm = next(matches_in(sv["body"]), None)
+    if mm is None:
+        raise AnchorMissing("match in sort_tx_out_value")
+    for a in mm["arms"]:
+        vs = sorted(last(pat_head(x) or "_") for x in pat_alts(a["pat"]))
+        rep.check("sort_value(" in sh.nsrc(SC, a["body"]), "R19-ORDER", "sort_tx_out_value#%s#value-sorted" % "+".join(vs), sh.loc(SC, a), "the %s arm of sort_tx_out_value does not put the output's value through sort_value: an output in that format keeps the wire order of its policies and asset names, so a script sees a different context than for the same UTxO in the other format" % "/".join(vs))
     for name, needs in ORDERED.items():
         f = find_fn(fj, name)
         rep.touched(SC, name)
         called = {last(call_name(c) or "") for c in calls_in(f["body"])} | {last(p) for p in paths_in(f["body"])}
         missing = [n for n in needs if n not in called]
         rep.check(not missing, "R19-ORDER", name, sh.loc(SC, f), "%s no longer calls %s: the script context would list this collection in transaction order instead of the ledger's canonical order, so scripts that look at positions (and redeemer pointers) disagree with the chain" % (name, missing), sample={"orders_by": needs})
+
+
+def r_cost(sh, rep):
+    """The units reported for a redeemer are `initial - remaining` as computed by EvalResult (cost()). Every evaluation
+    entry point builds its EvalResult from the machine it ran: remaining = machine.ex_budget, initial = the very budget
+    the machine was created with. Sibling rule over all Program::eval* functions: a different `initial` shifts every
+    reported cost by a constant — and the simulation's budget hand-over subtracts the reported units."""
+    AST = "crates/uplc/src/ast.rs"
+    n = 0
+    for q, f in all_fns(sh.file(AST)):
+        if "body" not in f:
+            continue
+        mk = [c for c in walk(f["body"]) if c.get("k") == "Call" and (call_name(c) or "").startswith("Machine::new")]
+        ev = [c for c in walk(f["body"]) if c.get("k") == "Call" and call_name(c) == "EvalResult::new"]
+        if not mk or not ev:
+            continue
+        n += 1
+        rep.touched(AST, q)
+        margs = {sh.nsrc(AST, a) for a in mk[0]["args"]}
+        e = ev[0]
+        rem = sh.nsrc(AST, e["args"][1]) if len(e["args"]) > 2 else "?"
+        ini = sh.nsrc(AST, e["args"][2]) if len(e["args"]) > 2 else "?"
+        rep.check(rem == "machine.ex_budget" and ini in margs, "R19-COST", "%s#cost-from-the-budget-the-machine-got" % q.split("::")[-1], sh.loc(AST, e), "%s builds its result with remaining = `%s` and initial = `%s`, but the machine was created with %s: the reported execution units are off by the difference, for every script evaluated through this entry point" % (q, rem, ini, sorted(margs)), sample={"initial": ini})
+    if n < 6:
+        rep.bad("R19-COST", "eval-entry-points", AST, "only %d evaluation entry points pairing Machine::new* with EvalResult::new found, 6 confirmed by hand (anchor)" % n)
 
 
 def r_pointer(sh, rep):
